@@ -115,6 +115,9 @@ def gen_cases(rng, tier):
     cases = [{"kind": "tables", "cls": "tables"}]
     for plat in PLATS:
         cases.append({"kind": "names", "cls": "names", "plat": plat})
+    for plat in PLATS:
+        for fn in ("cpu_times", "virtual_memory", "swap_memory", "disk_io_counters", "net_io_counters"):
+            cases.append({"kind": "sysfields", "cls": "sysfields", "plat": plat, "fn": fn})
     # ---- ladder: the whole space
     for plat in PLATS:
         errs = WIN_ERRS if plat == "windows" else POSIX_ERRS
@@ -135,11 +138,34 @@ def gen_cases(rng, tier):
                         for e in (["ESRCH", "ENOENT"] if plat in ("sunos", "aix") else ["ESRCH"]):
                             cases.append({"kind": "ladder", "cls": "status-%s-%s" % (plat, code), "plat": plat, "meth": meth,
                                           "site": site, "err": e, "state": "code:" + code, "pid": pid})
+    # ---- two native calls in one method (first fails with e1, the second route with e2), retry counts, wait()
+    from props import _c20_probe as P
+    for plat, prs in sorted(P.PAIRS.items()):
+        errs = WIN_ERRS if plat == "windows" else POSIX_ERRS
+        for meth, s1, s2 in prs:
+            for e1 in errs:
+                for e2 in errs:
+                    for st, pid in (("alive", 7), ("gone", 7), ("alive", 0), ("zombie", 7)) if plat == "windows" else \
+                            [(a, b) for a in STATES for b in (7, 0)]:
+                        if tier == "quick" and plat == "windows" and (st, pid) not in (("alive", 7), ("gone", 7)):
+                            continue
+                        cases.append({"kind": "pair", "cls": "pair-%s-%s" % (plat, meth), "plat": plat, "meth": meth, "site1": s1,
+                                      "site2": s2, "err1": e1, "err2": e2, "state": st, "pid": pid})
+    for meth, site in P.RETRY + [("exe", "proc_exe")]:
+        for k in (1, 2, 32, 33, 34):
+            for then in [None] + [e for e in WIN_ERRS if e != "WPARTIAL"]:
+                cases.append({"kind": "retry", "cls": "retry-" + meth, "meth": meth, "site": site, "k": k, "then": then,
+                              "state": "alive", "pid": 7})
+    for plat in PLATS:
+        for st in STATES:
+            for scen in (["WPlain", "WNativeTimeout", "WAbandoned"] if plat == "windows" else ["WPlain"]):
+                cases.append({"kind": "wait", "cls": "wait-" + plat, "plat": plat, "scen": scen, "state": st, "pid": 7})
     # ---- layout on random records
     for u in _PROBE["usage"]:
         plat, meth, var = u["plat"], u["meth"], u["variant"]
-        if any(src[0] == "Unknown" for _n, src in u["fields"]):
-            continue        # opaque answers (strings, lists): only their error ladder is checked
+        from props import _c20_stub as _S
+        if any(src[0] in ("Unknown", "Fun") or (src[0] == "Slot" and src[1] not in _S.INT_FNS) for _n, src in u["fields"]):
+            continue        # answers not decodable into int slots: table theorem only (+ their error ladder)
         for _ in range(n_lay):
             cases.append({"kind": "layout", "cls": "layout-" + plat, "plat": plat, "meth": meth, "variant": var,
                           "records": _records(rng, plat)})
@@ -162,8 +188,14 @@ def gen_cases(rng, tier):
                               "bcast": rng.choice([None, None, rng.randrange(2 ** 32)])})
             elif k < 0.7:
                 p = rng.randint(0, 128)
-                cases.append({"kind": "nic", "cls": "nic-inet6", "plat": plat, "fam": 1, "addrz": rng.randrange(2 ** 128),
-                              "maskz": rng.choice([None, 2 ** 128 - 2 ** (128 - p)]), "prefix": None, "bcast": None})
+                form = rng.choice(["none", "addr", "prefix", "prefix"])
+                cases.append({"kind": "nic", "cls": "nic-inet6-" + form, "plat": plat, "fam": 1, "addrz": rng.randrange(2 ** 128),
+                              "maskz": {"none": None, "addr": 2 ** 128 - 2 ** (128 - p), "prefix": p}[form],
+                              "maskform": form, "prefix": None if form == "none" else p, "bcast": None})
+            elif k < 0.75:
+                p = rng.randint(0, 32)
+                cases.append({"kind": "nic", "cls": "nic-inet-prefixlen", "plat": plat, "fam": 0, "addrz": rng.randrange(2 ** 32),
+                              "maskz": p, "maskform": "prefix", "prefix": p, "bcast": None})
             else:
                 n = rng.randint(1, 6)
                 cases.append({"kind": "nic", "cls": "nic-mac%d" % n, "plat": plat, "fam": 2,
@@ -187,8 +219,13 @@ def _nic_row(case):
         return "(Build_nicrow 2 %s 0 None None)" % G.by(sep.join(case["octets"])), "None", G.lst([G.by(o) for o in case["octets"]])
     import ipaddress
     a = str(ipaddress.IPv4Address(case["addrz"]) if case["fam"] == 0 else ipaddress.IPv6Address(case["addrz"]))
-    return ("(Build_nicrow %d %s %s %s %s)" % (case["fam"], G.by(a), G.z(case["addrz"]), G.opt(case["maskz"], G.z),
-                                              G.opt(case["bcast"], G.z)),
+    if case["maskz"] is None:
+        mk = "MNone"
+    elif case.get("maskform") == "prefix":
+        mk = "(MPrefix %s)" % G.z(case["maskz"])
+    else:
+        mk = "(MAddr %s)" % G.z(case["maskz"])
+    return ("(Build_nicrow %d %s %s %s %s)" % (case["fam"], G.by(a), G.z(case["addrz"]), mk, G.opt(case["bcast"], G.z)),
             G.opt(case.get("prefix"), G.z), "[]")
 
 
@@ -203,6 +240,17 @@ def coq_term(case):
         st = "(state_of_code %s %s)" % (COQ_PLAT[case["plat"]], _qs(st[5:])) if st.startswith("code:") else COQ_STATE[st]
         return "run_ladder %s %s %s %s %s %s" % (COQ_PLAT[case["plat"]], _qs(case["meth"]), _qs(case["site"]), case["err"],
                                                  st, G.z(case["pid"]))
+    if k == "sysfields":
+        return "run_sysfields %s %s" % (COQ_PLAT[case["plat"]], _qs(case["fn"]))
+    if k == "pair":
+        return "run_pair %s %s %s %s %s %s %s %s" % (COQ_PLAT[case["plat"]], _qs(case["meth"]), _qs(case["site1"]), _qs(case["site2"]),
+                                                     case["err1"], case["err2"], COQ_STATE[case["state"]], G.z(case["pid"]))
+    if k == "retry":
+        return "run_retry %s %s %s %s %s %s" % (_qs(case["meth"]), _qs(case["site"]), G.z(case["k"]),
+                                                "None" if case["then"] is None else "(Some %s)" % case["then"],
+                                                COQ_STATE[case["state"]], G.z(case["pid"]))
+    if k == "wait":
+        return "run_wait %s %s %s %s" % (COQ_PLAT[case["plat"]], case["scen"], COQ_STATE[case["state"]], G.z(case["pid"]))
     if k == "layout":
         return "run_layout %s %s %s %s" % (COQ_PLAT[case["plat"]], _qs(case["meth"]), _qs(case["variant"]),
                                            _records_term(case["records"]))
@@ -222,7 +270,7 @@ def coq_struct(case, raw):
         return {"model": [raw[0], raw[1], raw[2]], "spec": None, "missing": [raw[3], raw[4]]} if isinstance(raw, list) else {"model": raw, "spec": None}
     if k == "ladder":
         return {"model": raw[0], "spec": raw[1], "contract": raw[2]}
-    if k in ("layout", "dep", "nic"):
+    if k in ("layout", "dep", "nic", "pair", "retry", "wait", "sysfields"):
         return {"model": raw[0], "spec": raw[1]}
     raise ValueError(k)
 
@@ -236,6 +284,15 @@ def finding_key(case, coq):
             return "pid0-unlisted-taken-to-exist"
         if case["plat"] == "netbsd" and case["meth"] == "cmdline" and case["site"] == "proc_cmdline" and case["err"] == "EINVAL":
             return "pid0-unlisted-taken-to-exist"
+    if case["kind"] == "nic" and case["plat"] == "windows" and case["fam"] == 1 and case.get("maskform") == "addr":
+        return "windows-ipv6-broadcast-address-form-netmask"
+    if case["kind"] == "sysfields" and case["plat"] in ("sunos", "aix") and case["fn"] in ("cpu_times", "virtual_memory"):
+        return "docs-unix-fields-sunos-aix"
+    if case["kind"] == "ladder" and case["plat"] == "windows" and case["meth"] == "memory_maps" and case["site"] == "QueryDosDevice":
+        return "windows-memory_maps-querydosdevice"
+    if case["kind"] == "pair" and case["plat"] == "sunos" and case["pid"] == 0 and case["state"] == "gone" \
+            and ("ESRCH" in (case["err1"], case["err2"]) or "ENOENT" in (case["err1"], case["err2"])):
+        return "pid0-unlisted-taken-to-exist"
     return None
 
 
@@ -283,10 +340,29 @@ def judge(case, coq, impl):
         return Verdict("corr", "native call %s not reached by %s.%s(pid=%d)" % (case["site"], case["plat"], case["meth"], case["pid"]))
     if k == "layout" and isinstance(coq["model"], list) and coq["model"][2] == T("OutOfModel"):
         return Verdict("skip", "answer not decodable into native slots")
+    if k == "sysfields":
+        if impl != coq["model"]:
+            return Verdict("corr", "field list differs from the generated table")
+        if isinstance(impl, list) and sorted(x["b"] for x in impl) == sorted(x["b"] for x in coq["spec"]):
+            return Verdict("ok")
+        v = Verdict("violation", "fields %r, documented %r" % (impl, coq["spec"]))
+        key = finding_key(case, coq)
+        if key is not None and key in _local_known():
+            if key not in _announced:
+                _announced.add(key)
+                print("KNOWN-FINDING: property=%s %s" % (ID, _local_known()[key]))
+            return Verdict("known", key)
+        return v
     if k == "nic":
         spec, model = coq["spec"], coq["model"]
         spec_fail = impl[0] != spec[0] or (spec[1] != T("Any") and impl[1] != spec[1])
         if spec_fail:
+            key = finding_key(case, coq)
+            if key is not None and key in _local_known() and impl == model:
+                if key not in _announced:
+                    _announced.add(key)
+                    print("KNOWN-FINDING: property=%s %s" % (ID, _local_known()[key]))
+                return Verdict("known", key)
             return Verdict("violation", "net_if_addrs() post-processing: got %r, documented %r" % (impl, spec))
         return Verdict("ok") if impl == model else Verdict("corr", "impl != model")
     v = default_judge(None, case, coq, impl)
@@ -303,7 +379,7 @@ def judge(case, coq, impl):
 
 
 def nontrivial(case, coq, impl):
-    return case["kind"] in ("ladder", "layout", "nic", "dep")
+    return case["kind"] in ("ladder", "layout", "nic", "dep", "pair", "retry", "wait", "sysfields")
 
 
 # ------------------------------------------------------------------ implementation side (worker)
@@ -352,6 +428,22 @@ def impl_run(case, coq, env):
             return T("NoSuchMethod")
         kind, r = L.run(case["meth"], pid=case["pid"], state=case["state"], site=case["site"], err=case["err"])
         return S.classify(L, kind, r)
+    if k == "sysfields":
+        pkg = _fe(case["plat"], env).mod
+        cls = {"cpu_times": lambda: pkg._psplatform.scputimes, "virtual_memory": lambda: pkg._psplatform.svmem,
+               "swap_memory": lambda: pkg._common.sswap,
+               "disk_io_counters": lambda: getattr(pkg._psplatform, "sdiskio", pkg._common.sdiskio),
+               "net_io_counters": lambda: pkg._common.snetio}[case["fn"]]()
+        if not callable(getattr(pkg, case["fn"], None)):
+            return T("NoSuchFunction")
+        return [B(f) for f in cls._fields]
+    if k == "pair":
+        L = _layer(case["plat"], env)
+        return P.pair_outcome(L, case["meth"], case["site1"], case["site2"], case["err1"], case["err2"], case["state"], case["pid"])
+    if k == "retry":
+        return P.retry_outcome(_layer("windows", env), case["meth"], case["site"], case["k"], case["then"], case["state"], case["pid"])
+    if k == "wait":
+        return P.wait_outcome(_layer(case["plat"], env), case["scen"], case["state"], case["pid"])
     if k == "layout":
         L = _layer(case["plat"], env)
         if case["meth"] not in P.methods_of(L):
@@ -385,7 +477,7 @@ def impl_run(case, coq, env):
         else:
             conv = ipaddress.IPv4Address if case["fam"] == 0 else ipaddress.IPv6Address
             addr = str(conv(case["addrz"]))
-            mask = None if case["maskz"] is None else str(conv(case["maskz"]))
+            mask = None if case["maskz"] is None else (str(case["maskz"]) if case.get("maskform") == "prefix" else str(conv(case["maskz"])))
             bc = None if case.get("bcast") is None else str(conv(case["bcast"]))
         r = P.run_nic(fe, case["fam"], addr, mask, bc)
         b = r[1]
